@@ -33,6 +33,9 @@ STACKS = [
     ("hashpooled", [("mc1", 11211), ("mc2", 11211)], {"max_pool_size": 2}),
     ("pooled", [("mc1", 11211)], {"max_pool_size": 1, "ignore_exc": True}),
     ("client", [("mc1", 11211)], {"ignore_exc": True}),
+    # an idle connection expires at the next checkout: its close() is one more interruption point
+    ("pooled", [("mc1", 11211)], {"max_pool_size": 1, "pool_idle_timeout": 5}),
+    ("pooled", [("mc1", 11211)], {"max_pool_size": 2, "pool_idle_timeout": 5}),
 ]
 
 
@@ -40,6 +43,8 @@ def base_case(stack, servers, cfg, label, op, warm, seg, nprefix=0, rng=None):
     ops = []
     if warm:
         ops.append(("get", ("h3",), {}))
+        if cfg.get("pool_idle_timeout"):
+            ops.append(("advance", (cfg["pool_idle_timeout"] + 1,), {}))
     if nprefix and rng is not None:
         allops = [o for _, o in catalogue.ops_catalogue() if catalogue.supports(stack, o[0])
                   and o[0] not in ("quit", "shutdown", "flush_all")]
